@@ -257,6 +257,10 @@ def examine(case: dict, ctx) -> Outcome:
         out.bad(f"jacobian-not-evaluable:{type(e).__name__}:{root}", error=repr(e)[:200])
         return out
     Jfd = _num_jac(m, case["time"], y)
+    if not np.all(np.isfinite(Jn)):
+        # e.g. 0**x * log(0) when a power's base is exactly 0 at this point: the derivative does not exist there
+        out.classes.append("jacobian-nonfinite-at-singular-point")
+        return out
     if "conditional_rate_law" not in feats:  # conditionals are not differentiable at their boundary
         scale = 1 + np.abs(Jfd).max()
         if not np.all(np.abs(Jn - Jfd) <= 1e-5 * scale):
@@ -353,6 +357,8 @@ def floors(ctx) -> list[str]:
     for k in ["jacobian-invoked:Radau", "jacobian-invoked:BDF", "jacobian-invoked:LSODA"]:
         if ctx.classes.get(k, 0) < 1:
             c.append(f"class {k} never occurred")
+    if ctx.classes.get("jacobian-nonfinite-at-singular-point", 0) > 0.2 * max(1, ctx.classes.get("jacobian-compared", 0)):
+        c.append("too many non-finite symbolic Jacobians")
     for k in ["lib:fns", "lib:rates", "feat:derived_declared_out_of_order", "feat:untouched_variable", "params_changed", "jacobian-compared"]:
         if ctx.classes.get(k, 0) < 5:
             c.append(f"class {k} only {ctx.classes.get(k, 0)}")
